@@ -37,13 +37,14 @@ const (
 	stopSetErr
 	stopDumpWriteErr
 	stopCancelInHandshake
+	stopCancelAtDial
 	numStopKinds
 )
 
 var stopNames = []string{"none", "fin", "rst", "short-packet", "bad-seq", "err-packet", "eof-packet",
 	"invalid-event", "unsupported-event", "cancel", "handler-error", "mapper-error", "mapper-miscount",
 	"read-timeout", "dial-error", "handshake-fin", "handshake-garbage", "auth-error", "set-error",
-	"dump-write-error", "cancel-in-handshake"}
+	"dump-write-error", "cancel-in-handshake", "cancel-at-dial"}
 
 func (k stopKind) String() string { return stopNames[k] }
 
@@ -349,6 +350,9 @@ func (m *simMaster) startDump(d *DumpReq, seq byte) {
 	}
 	if at < 0 {
 		at = 0
+	}
+	if p.Kind == stopBadSeq && at >= len(pk) {
+		at = len(pk) - 1
 	}
 	m.tail = stopNone
 	cut := -1 // byte offset (in the dump stream) where the stream is cut, -1 = not cut
